@@ -53,11 +53,12 @@ __CPROVER_ensures((a * b) % a == 0 && (a * b) / a == b)
 /* the arithmetic core of jls_core_signal_def_align after its loop, as a pure fact about five numbers:
  * sdf = sample_decimate_factor, epd = entries_per_data (after the loop), epd0 = entries_per_data before the loop,
  * spd = samples_per_data before the final product, eps = entries_per_summary */
-void vg_lemma_align_core(uint32_t sdf, uint32_t epd, uint32_t epd0, uint32_t spd, uint32_t eps)
+void vg_lemma_align_core(uint32_t sdf, uint32_t epd, uint32_t epd0, uint32_t spd, uint32_t eps, uint32_t q)
 __CPROVER_requires(sdf >= 10)
 __CPROVER_requires(epd >= 1 && epd <= epd0)
 __CPROVER_requires(epd0 == spd / sdf)
-__CPROVER_requires((eps / epd) * epd == eps)
+/* q is the quotient the loop condition computed: q * epd == eps on exit */
+__CPROVER_requires(q * epd == eps && (uint64_t) q * epd <= eps)
 __CPROVER_assigns()
 __CPROVER_ensures((sdf * epd) % sdf == 0 && (sdf * epd) >= sdf && (sdf * epd) >= 10 && (sdf * epd) <= spd)
 __CPROVER_ensures((sdf * epd) / sdf == epd && eps % ((sdf * epd) / sdf) == 0)
